@@ -275,8 +275,11 @@ def write_replay(prop, name, payload):
 
 
 def write_evidence(prop, ev):
-    os.makedirs(os.path.join(VERIF, 'evidence'), exist_ok=True)
-    with open(os.path.join(VERIF, 'evidence', prop + '.json'), 'w') as f:
+    # evidence describes runs against /repo itself; a run against another tree (VERIF_REPO, used to try seeded changes) keeps its
+    # record out of the committed directory
+    d = os.path.join(VERIF, 'evidence') if os.path.realpath(REPO) == '/repo' else os.path.join(BUILD, 'evidence-other-tree')
+    os.makedirs(d, exist_ok=True)
+    with open(os.path.join(d, prop + '.json'), 'w') as f:
         json.dump(ev, f, indent=1, sort_keys=False)
 
 
